@@ -906,3 +906,13 @@ def m_lexsort(ip, args, kw, st, node):
     sv = ip.as_seq(args[0], st)
     f = z3.Function("NP_LEXSORT", z3.ArraySort(I, Ref), I, Ref)
     return [(Sym(f(sv.arr, sv.n), ("ref", "Obj")), st)]
+
+
+@model("np.array")
+def m_np_array(ip, args, kw, st, node):
+    """np.array(seq of reals): abstracted as a function of the element sequence and its length (A-NUMPY)"""
+    if kw or len(args) != 1:
+        raise OutOfSubset("np.array with options", node)
+    sv = ip.as_seq(args[0], st)
+    f = z3.Function("NP_ARRAY", z3.ArraySort(I, R), I, Ref)
+    return [(Sym(f(sv.arr, sv.n), ("ref", "Obj")), st)]
